@@ -6,6 +6,7 @@ import Cvss.Gen.V31
 import Cvss.Gen.V40
 import Cvss.Model.Obj
 import Cvss.Model.Parse
+import Cvss.Model.WF
 import Cvss.Model.SrcTie
 import Cvss.Spec.Metrics
 import Cvss.Spec.Grammar
